@@ -232,6 +232,7 @@ theorem recover_manifest_updates {st : Store} {rid : Nat} {r : Recovered} (h : r
             cases hchk
             simp [hg]
           · cases hchk
+          · cases hchk
 
 /-- **recover_selects_all**: under the manifest invariant the updates recovery returns are, as a
     set, exactly the checkpoint entries plus the deltas of every listed segment — no listed
